@@ -10,26 +10,34 @@ Open Scope N_scope.
 (* script := k  mod{k'}  inj*                         k' = 2 + k mod 3 modules; v = (k / 3) mod 5: if 1 <= v <= k' the
                                                       variant "module v-1 falls silent instead of panicking" is run as well
    mod    := catch stages bud  progs progs progs  lp(end)      catch odd = panics are caught; stages' = 1 + stages mod 3;
-                                                      bit 1+id of catch: the handle of task id is join()ed (else try_join)
+                                                      bit 1+id of catch: the handle of task id is join()ed (else try_join);
+                                                      bits 4..7 of catch and field a of ops 8 / 9: the other four Stereotyp flags -- never
+                                                      read here (C13_only_catch_flag_matters), as des never reads them
    progs  := n lp(prog){n}                            start programs, message programs, tasks
-   prog   := (op a b c)*                              op mod 13: 0 log c | 1 send(far = a odd, delay b, payload c)
+   prog   := (op a b c)*                              op mod 16: 0 log c | 1 send(far = a odd, delay b, payload c)
                                                       | 2 schedule(delay b, payload c) | 3 sleep b | 4 shutdown
                                                       | 5 restart_in b | 6 panic | 7 quiet | 8 catch panics | 9 do not
                                                       | 10 schedule_at(now - 1 - b) | 11 send_at(gate a, now - 1 - b)
-                                                      | 12 current().shutdow_and_restart_at(now - 1 - b): calls of the
+                                                      | 12 current().shutdow_and_restart_at(now - 1 - b)
+                                                      | 13 log the property of module a mod k' (every module's property is 100 + its
+                                                        index throughout: here a log of that number)
+                                                      | 14 panic inside a Prop::update / Prop::map closure | 15 re-entrant property
+                                                        access (the library's lock panics): panics that begin while a lock is held
+                                                      10..12: calls of the
                                                         public API with a time stamp in the past; the library panics inside the call,
                                                         which makes each of them a panic at that point of the callback / task
    inj    := kind m time payload                      kind mod 3: 0 handle_message_on(m) | 1 add_message_onto(m.out)
                                                       | 2 add_message_onto(m.far);   m mod k' *)
 Definition nxt (l : list N) : N * list N := match l with [] => (0, []) | x :: r => (x, r) end.
 
-Fixpoint quads (l : list N) : prog :=
+Fixpoint quads (k : N) (l : list N) : prog :=
   match l with
   | o :: a :: b :: c :: r =>
-    (let o := o mod 13 in
+    (let o := o mod 16 in
      if o =? 0 then ALog c else if o =? 1 then ASend (N.odd a) b c else if o =? 2 then ASched b c
      else if o =? 3 then ASleep b else if o =? 4 then AShutdown else if o =? 5 then ARestartIn b
-     else if o =? 6 then APanic else if o =? 7 then AQuiet else if o <? 10 then ASetCatch (o =? 8) else APanic) :: quads r
+     else if o =? 6 then APanic else if o =? 7 then AQuiet else if o <? 10 then ASetCatch (o =? 8)
+     else if o =? 13 then ALog (100 + a mod k) else APanic) :: quads k r
   | _ => []
   end.
 
@@ -45,17 +53,17 @@ Fixpoint take_blobs (n : nat) (l : list N) : list (list N) * list N :=
 Definition blobs (l : list N) : list (list N) * list N :=
   let '(n, r) := nxt l in take_blobs (N.to_nat (N.min n (N.of_nat (length r)))) r.
 
-Definition dec_mod (l : list N) : modcfg * list N :=
+Definition dec_mod (k : N) (l : list N) : modcfg * list N :=
   let '(ca, r) := nxt l in let '(st, r) := nxt r in let '(b, r) := nxt r in
   let '(ps, r) := blobs r in let '(pm, r) := blobs r in let '(pt, r) := blobs r in
   let '(pe, r) := take_lp r in
-  ({| c_catch := N.odd ca; c_stages := 1 + st mod 3; c_bud := b; c_start := map quads ps;
-      c_msg := map quads pm; c_tasks := map quads pt; c_end := quads pe; c_join := (ca / 2) mod 8 |}, r).
+  ({| c_catch := N.odd ca; c_stages := 1 + st mod 3; c_bud := b; c_start := map (quads k) ps;
+      c_msg := map (quads k) pm; c_tasks := map (quads k) pt; c_end := quads k pe; c_join := (ca / 2) mod 8 |}, r).
 
-Fixpoint dec_mods (n : nat) (l : list N) : list modcfg * list N :=
+Fixpoint dec_mods (k : N) (n : nat) (l : list N) : list modcfg * list N :=
   match n with
   | O => ([], l)
-  | S n' => let '(c, r) := dec_mod l in let '(cs, r') := dec_mods n' r in (c :: cs, r')
+  | S n' => let '(c, r) := dec_mod k l in let '(cs, r') := dec_mods k n' r in (c :: cs, r')
   end.
 
 Fixpoint dec_inj (k : N) (l : list N) : list (N * inj) :=
@@ -69,7 +77,7 @@ Fixpoint dec_inj (k : N) (l : list N) : list (N * inj) :=
 Definition decode (l : list N) : script :=
   let '(k, r) := nxt l in
   let k' := 2 + k mod 3 in
-  let '(ms, r) := dec_mods (N.to_nat k') r in
+  let '(ms, r) := dec_mods k' (N.to_nat k') r in
   {| s_mods := ms; s_inj := dec_inj k' r |}.
 
 (* output: 5 numbers per record *)
